@@ -27,7 +27,7 @@ PROPS = {
     'C07': dict(lean_quick=['Props.C07Fin'], prefixes=['p8e0::convert', 'p16e1::convert', 'p32e2::convert']),
     'C08': dict(lean_quick=['Props.C08Fin'], prefixes=['convert']),
     'C09': dict(lean_quick=['Props.C09Fin'], prefixes=['p8e0::math', 'p16e1::math', 'p32e2::math']),
-    'C10': dict(lean_quick=['Props.C10Fin'], prefixes=['p8e0::{', 'p16e1::{', 'p32e2::{', 'pxe1::{', 'pxe2::{']),
+    'C10': dict(lean_quick=['Props.C10Fin', 'Props.C10Gen', 'Props.C10Mono'], prefixes=['p8e0::{', 'p16e1::{', 'p32e2::{', 'pxe1::{', 'pxe2::{']),
     'C17': dict(lean_quick=['Props.C17Fin'], prefixes=['p8e0', 'p16e1', 'p32e2', 'quire']),
     'C11': dict(lean_quick=['Props.C11Fin'], prefixes=['p16e1::math', 'p8e0::math']),
     'C18': dict(lean_quick=['Props.C18'], prefixes=['polynom']),
